@@ -264,6 +264,57 @@ def h_reuse_after_backward(env, N, r, qubits, record):
 h_reuse_after_backward.uses_rng = True
 
 
+def h_backward_after_two_forwards(env, N, prog):
+    """history: the same circuit is run forward twice (on two different states); backward() without a record must
+    apply the adjoint of the LATEST recorded trajectory (never an impossible one for the state just produced)"""
+    M = Mods(env)
+    g1, p1 = sym_state(env, N, 'a')
+    g2, p2 = sym_state(env, N, 'b')
+    ops = _ops(env, M, N, prog)
+    circ = M.ci.Circuit(N)
+    for kind, x in ops:
+        if kind == 'M':
+            circ.measure(*x)
+        else:
+            circ.take(x)
+    k = sum(len(op[1]) for op in prog if op[0] == 'M')
+    A = mk_state(M, env, g1, p1, 0)
+    B = mk_state(M, env, g2, p2, 0)
+    f = env.run(lambda: (circ.forward(A), circ.forward(B)))
+    env.goal('forward_no_exception', b_not(f.raised))
+    if f.value is None:
+        return
+    env.goal('record_accumulates', len(circ.measure_result) == 2 * k)
+    if len(circ.measure_result) != 2 * k:
+        return
+    rec = list(circ.measure_result)[k:]                 # the second run's outcomes
+    C = mk_state(M, env, B.gs, B.ps, 0)
+    ra = env.run(lambda: circ.backward(B))
+
+    def manual():
+        kk = len(rec)
+        for kind, x in reversed(ops):
+            if kind == 'M':
+                for q in reversed(x):
+                    kk -= 1
+                    tmp = [0] * N
+                    tmp[q] = 3
+                    m = rec[kk]
+                    s_ = int(ite(eq(m, 1), 0, 1)) if hasattr(m, 'e') else (1 - int(m)) // 2
+                    C.postselect(M.pa.pauli(tmp), s_)
+            else:
+                x.backward(C)
+    rb = env.run(manual)
+    env.goal('backward_of_own_latest_trajectory_is_possible', b_not(ra.raised))
+    env.goal('manual_no_exception', b_not(rb.raised))
+    if ra.value is not None and rb.value is None and not rb.raised is True:
+        env.goal('rows', arr_eq(B.gs, C.gs))
+        env.goal('signs', arr_eq(B.ps, C.ps))
+
+
+h_backward_after_two_forwards.uses_rng = True
+
+
 def jobs(tier):
     J = []
     thorough = tier == 'thorough'
@@ -298,6 +349,8 @@ def jobs(tier):
             for record in itertools.product((1, -1), repeat=len(q)):
                 for r in (0, N):
                     J.append(dict(harness=('c14', 'h_reuse_after_backward'), params=dict(N=N, r=r, qubits=list(q), record=list(record)), timeout_s=600, cost=30, max_paths=3000))
+    for prog in ([['M', [0]]], [['gen', [0, 1]], ['M', [1]]], [['M', [1]], ['gen', [0, 1]], ['M', [0, 1]]]):
+        J.append(dict(harness=('c14', 'h_backward_after_two_forwards'), params=dict(N=2, prog=prog), timeout_s=600, cost=40, max_paths=3000))
     # nothing added after a measurement moves in front of it: packing lemma with one measurement at every position
     for N in (2, 3):
         for n_ops in (2, 3):
